@@ -1,6 +1,7 @@
 """Per-property plans: which design checks (TLC on the specification), which harness runs and
 which trace specification decide each property."""
 import json
+import os
 
 ADDR_ASSUME = [
     "Arch constants (VB=48, PB=52, OB=12, IB=9) and the declarative lemmas of MC_Addr.tla state the intended meaning",
@@ -113,17 +114,30 @@ def ensure_stimuli(which):
 
 
 def stim_runs(tier, seed, salt):
-    """replay of TLC-generated transitions (pre-state injected) on the three mapper kinds"""
-    every = 60 if tier == "quick" else 1
+    """replay of TLC-generated transitions (pre-state injected) on the three mapper kinds.  Quick tier: a stratified
+    sample (tools/stim_sample.py: 12 members of every (operation, size, level, allocator answers, walk shape) class
+    plus every 60th transition); thorough tier: every transition."""
+    import subprocess, sys
+    import vlib
     runs = []
     for kind, which in (("mapped", "t1"), ("offset", "t1"), ("recursive", "rec")):
-        def pre(_tp, which=which):
+        full = "%s/gen/stim_%s.ndjson" % (vlib.VERIF, which)
+        sampled = "%s/gen/stim_%s_q%d.ndjson" % (vlib.VERIF, which, seed + salt)
+        def pre(_tp, which=which, full=full, sampled=sampled):
             ensure_stimuli(which)
-        import vlib
+            if tier == "quick":
+                stamp = sampled + ".hash"
+                h = vlib.spec_hash()
+                if not (os.path.exists(sampled) and os.path.exists(stamp) and open(stamp).read() == h):
+                    rc = subprocess.call([sys.executable, vlib.VERIF + "/tools/stim_sample.py", full, sampled, "60", str(seed + salt)],
+                                         stdout=subprocess.DEVNULL)
+                    if rc != 0:
+                        raise vlib.ToolError("stim_sample failed")
+                    open(stamp, "w").write(h)
         runs.append({"name": "stim_%s_%d" % (kind, seed), "prof": "dev" if kind != "offset" or tier == "quick" else "rel",
                      "pre": pre,
-                     "args": ["ptstim", "--mode", kind, "--in", "%s/gen/stim_%s.ndjson" % (vlib.VERIF, which),
-                              "--n", str(every), "--seed", str(seed + salt)],
+                     "args": ["ptstim", "--mode", kind, "--in", sampled if tier == "quick" else full,
+                              "--n", "1", "--seed", str(seed + salt)],
                      "vtimeout": 7200})
     return runs
 
@@ -143,7 +157,7 @@ def pt_plan(mix, n_quick, n_thorough, rule, design_quick, design_thorough, kinds
                              "vtimeout": 3600})
         runs += stim_runs(tier, seed, salt)
         return {"design": design, "runs": runs, "trace_module": "Trace_PT", "level": "model_checking",
-                "rule": rule + "; PLUS specification -> implementation replay: transitions of the MC_PT state graph (every explored (state, call) pair, printed by TLC) are replayed on the three mapper kinds with the pre-state injected into simulated physical memory (quick: every 60th transition, thorough: all 118 201 per configuration)",
+                "rule": rule + "; PLUS specification -> implementation replay: transitions of the MC_PT state graph (every explored (state, call) pair, printed by TLC) are replayed on the three mapper kinds with the pre-state injected into simulated physical memory (quick: a stratified sample - 12 members of every (operation, size, level, allocator answers, walk shape) class plus every 60th transition; thorough: all 118 201 per configuration)",
                 "assumptions": PT_ASSUME, "replay_lines": pt_replay_lines}
     return mk
 
